@@ -28,8 +28,10 @@ for variant in "-goos windows"; do
   if [ $r -gt $rc ]; then rc=$r; fi
 done
 echo "--- mutation self-test for $ID"
-VERIF_REPO="$REPO" python3 selftest/run.py --prop "$ID" -j 6; st=$?
-bin/dcmcheck -prop "$ID" -tier thorough -repo "$REPO" -verif "$(pwd)"; r=$?
+stjson=$(mktemp)
+VERIF_REPO="$REPO" python3 selftest/run.py --prop "$ID" -j 6 --json "$stjson"; st=$?
+VERIF_SELFTEST_JSON="$stjson" VERIF_VARIANTS="goos=windows (exit $rc)" bin/dcmcheck -prop "$ID" -tier thorough -repo "$REPO" -verif "$(pwd)"; r=$?
+rm -f "$stjson"
 if [ $r -gt $rc ]; then rc=$r; fi
 if [ $rc -eq 0 ] && [ $st -ne 0 ]; then echo "CHECK-ERROR property=$ID mutation self-test failed: checker unreliable"; rc=2; fi
 exit $rc
